@@ -19,7 +19,7 @@ Section CoreProofs.
   Lemma eval_keeps c s l : stopped mx (fst (eval q blanks AND c s l)) = stopped mx s /\ match_count mx (fst (eval q blanks AND c s l)) = match_count mx s
     /\ scan_count mx (fst (eval q blanks AND c s l)) = scan_count mx s /\ adv mx (fst (eval q blanks AND c s l)) = adv mx s /\ pln mx (fst (eval q blanks AND c s l)) = pln mx s.
   Proof.
-    destruct c as [b|a|b a|g]; cbn; auto using do_action_keeps.
+    destruct c as [b|a|b a|g|na0 i0 k0 r0]; cbn; auto using do_action_keeps.
     - destruct (beval q blanks s l b); cbn; auto using do_action_keeps.
     - apply (do_action_keeps s l (Agg g)).
   Qed.
@@ -90,6 +90,28 @@ Proof.
   cbn [beval]. rewrite andb_true_iff, Nat.eqb_eq, forallb_forall, Forall_forall. split; intros [H1 H2]; (split; [exact H1|]).
   - intros t Ht. specialize (H2 t Ht). unfold is_blank_text in H2. destruct (strip t); [discriminate|discriminate].
   - intros t Ht. specialize (H2 t Ht). unfold is_blank_text. destruct (strip t); [contradiction|reflexivity].
+Qed.
+
+(** mod(#h, k) == r as a component: it holds on a line exactly when the cell is there, is a number z, and z mod k = r — a blank, missing
+    or non-numeric cell never satisfies it (mod() raises, the component declines), not even under not() *)
+Theorem mod_component_meaning q bl AND s l na i k r :
+  eval q bl AND (CMod na i k r) s l = (s, true) <->
+  exists t z, cell l i = Some t /\ parse_int t = Some z /\ (if na then ~ (r < z mod k) else z mod k = r).
+Proof.
+  cbn [eval]. split.
+  - intros H. destruct (cell l i) as [t|] eqn:Ec; [|inversion H]. destruct (parse_int t) as [z|] eqn:Ep; [|inversion H].
+    exists t, z. split; [reflexivity|split; [exact Ep|]]. destruct na.
+    + injection H as H. apply negb_true_iff in H. apply Z.ltb_ge in H. lia.
+    + injection H as H. apply Z.eqb_eq in H. exact H.
+  - intros (t & z & Hc & Hp & Hz). rewrite Hc, Hp. destruct na.
+    + f_equal. apply negb_true_iff. apply Z.ltb_ge. lia.
+    + f_equal. apply Z.eqb_eq. exact Hz.
+Qed.
+Theorem mod_component_blank q bl AND s l na i k r : (forall t, cell l i = Some t -> is_blank_text t = true) ->
+  snd (eval q bl AND (CMod na i k r) s l) = false.
+Proof.
+  intros H. cbn [eval snd]. destruct (cell l i) as [t|] eqn:E; [|reflexivity].
+  specialize (H t eq_refl). unfold is_blank_text in H. unfold parse_int. destruct (strip t); [reflexivity|discriminate].
 Qed.
 
 Theorem numeric_cells_compare_as_numbers bl s l o i j :
